@@ -100,7 +100,7 @@ class MarkerExpression(SingleMarker):
     name: str
     op: str
     value: str
-    reversed: bool = field(default=False, compare=False, hash=False)
+    reversed: bool = False
     _specifier: BaseSpecifier | None = field(default=None, compare=False, hash=False)
 
     @property
